@@ -650,6 +650,16 @@ def sqrt_square_axioms():
 
 THEORIES['sqrtsq'] = sqrt_square_axioms
 
+
+def sqrt_nonneg_axioms():
+    """IEEE: the square root of a non-negative (non-NaN) value is not negative; -1 < 0."""
+    x = z3.Const('sn_x', Val)
+    return [z3.ForAll([x], z3.Implies(z3.Not(vlt(x, vzero)), z3.Not(vlt(vsqrt(x), vzero))), patterns=[vsqrt(x)]),
+            vlt(vlit(-1.0), vzero)]
+
+
+THEORIES['sqrtnonneg'] = sqrt_nonneg_axioms
+
 induction_lemma(
     'RowMinGreatestSqrt', _ctxc + [_row, _lo, _v], _hi, _lo + 1,
     hyp=lambda k: z3.ForAll([_j], z3.Implies(z3.And(_lo <= _j, _j < k), _nlt(vsqrt(Wf(*_ctxc, _row, _j)), _v)),
@@ -818,3 +828,46 @@ def _agreestep_obligations():
 
 LEMMAS['AgreeStep'] = Lemma('AgreeStep', _agreestep_axiom, _agreestep_obligations,
                             doc='if the three predecessor cells agree with W (equal, or both above the bound), so does the new cell')
+
+
+# ---- W is non-negative (non-negative point costs and penalty): induction on the anti-diagonal a + b (C05: cells of a cost
+# matrix never carry the -1 mark by themselves)
+_wa, _wb, _wn = z3.Ints('wn_a wn_b wn_n')
+_WN_CTX = z3.And(z3.Not(vlt(_PEN, vzero)), _ND == 0)
+
+
+def _wn_prop(n):
+    return z3.ForAll([_wa, _wb], z3.Implies(z3.And(_wa >= 0, _wb >= 0, _wa + _wb <= n), z3.Not(vlt(Wf(*_ctxc, _wa, _wb), vzero))),
+                     patterns=[Wf(*_ctxc, _wa, _wb)])
+
+
+def _wnonneg_axiom():
+    return [z3.ForAll(_ctxc + [_wa, _wb], z3.Implies(z3.And(_WN_CTX, _wa >= 0, _wb >= 0), z3.Not(vlt(Wf(*_ctxc, _wa, _wb), vzero))),
+                      patterns=[Wf(*_ctxc, _wa, _wb)])]
+
+
+def _wnonneg_obligations():
+    ax = w_axioms() + order_axioms() + nonneg_axioms()
+    base = Obligation('lemma:WNonneg::base', 'lemma', [_WN_CTX], _wn_prop(z3.IntVal(0)), 'lemma:WNonneg', props=('C05',),
+                      note='W(0, 0) is not negative', axioms=ax)
+    # (the goal is stated for one arbitrary cell of the anti-diagonals up to n + 1; x1..x3 only name its three predecessors so
+    #  that the induction hypothesis, triggered on W terms, is instantiated for them)
+    x1, x2, x3 = z3.Consts('wn_x1 wn_x2 wn_x3', Val)
+    step = Obligation('lemma:WNonneg::step', 'lemma',
+                      [_WN_CTX, _wn >= 0, _wn_prop(_wn), _wa >= 0, _wb >= 0, _wa + _wb <= _wn + 1,
+                       x1 == Wf(*_ctxc, _wa - 1, _wb - 1), x2 == Wf(*_ctxc, _wa - 1, _wb), x3 == Wf(*_ctxc, _wa, _wb - 1)],
+                      z3.Not(vlt(Wf(*_ctxc, _wa, _wb), vzero)), 'lemma:WNonneg',
+                      props=('C05',), note='cells of anti-diagonal n + 1 are a non-negative cost plus the least of three non-negative candidates',
+                      axioms=ax)
+    # every cell lies on some anti-diagonal
+    k = z3.Int('wn_k')
+    allk = z3.ForAll([k], z3.Implies(k >= 0, z3.ForAll([_wa, _wb], z3.Implies(z3.And(_wa >= 0, _wb >= 0, _wa + _wb <= k),
+                                                                              z3.Not(vlt(Wf(*_ctxc, _wa, _wb), vzero))))))
+    inst = z3.Implies(z3.And(_wa >= 0, _wb >= 0), z3.Not(vlt(Wf(*_ctxc, _wa, _wb), vzero)))
+    use = Obligation('lemma:WNonneg::use', 'lemma', [_WN_CTX, allk], inst, 'lemma:WNonneg', props=('C05',),
+                     note='instantiate the anti-diagonal a + b', axioms=[])
+    return [base, step, use]
+
+
+LEMMAS['WNonneg'] = Lemma('WNonneg', _wnonneg_axiom, _wnonneg_obligations,
+                          doc='the accumulated cost is never negative (non-negative point costs and penalty), by induction on a + b')
